@@ -1,5 +1,7 @@
 import StepModel.ExpressDiagLemmas
 import StepModel.ExpressResolveLemmas
+import StepModel.ExpressLexLemmas
+import StepModel.Generated.ReportSites
 /-!
 # C20 — diagnostics name the construct that is actually wrong; `-w` / `-i` are local
 
@@ -65,25 +67,93 @@ theorem C20_va_list_as_argument_witness :
     body true amb₁ d = "identifier (_abc) cannot start with underscore".toList := by
   decide
 
-/-! ## attribution to the file of origin, multi-file runs -/
+/-! ## every diagnostic call site of the C sources passes what its format consumes -/
+
+def kindOfNat : Nat → Option Kind
+  | 0 => some .str | 1 => some .chr | 2 => some .int | 3 => some .real | _ => none
+
+/-- at a call site (position, code name, argument kinds — regenerated from src/express by `reportsites.py`) the number and
+    kinds of the arguments are what the code's format in the regenerated table consumes -/
+def siteFits (s : String × String × List Nat) : Bool :=
+  match LibErrors.codeEnum.find? (·.1 = s.2.1), s.2.2.mapM kindOfNat with
+  | some (_, c), some ks => codeFits c ks
+  | _, _ => false
+
+set_option maxRecDepth 100000 in
+/-- **every `ERRORreport*` call of src/express (81 sites on this tree) passes arguments of the number and kinds its format
+    consumes** — except, on this tree, the one report of GROUP_REF_UNEXPECTED_TYPE (expr.c, `EXPresolve_op_group`), whose `%s`
+    has no argument: excluded here, refuted below, repaired by fixes/C20-5.  Drop the exclusion once that is integrated. -/
+theorem C20_report_sites_fit_partial :
+    ∀ s ∈ ReportSites.sites, s.2.1 ≠ "GROUP_REF_UNEXPECTED_TYPE" → siteFits s = true := by
+  decide
+
+/-- the excluded shape: a report of GROUP_REF_UNEXPECTED_TYPE without argument does not fit "… expression %s" (check-express
+    prints stack garbage: `SELF.l\e2.v` with `l` an aggregate), with the expression's name it does -/
+theorem C20_group_ref_site_witness :
+    siteFits ("expr.c", "GROUP_REF_UNEXPECTED_TYPE", []) = false ∧
+    siteFits ("expr.c", "GROUP_REF_UNEXPECTED_TYPE", [0]) = true := by
+  decide
+
+/-! ## lexical diagnostics quote the input -/
+
+/-- **the argument of every lexical diagnostic is the text of the input at the offset the diagnostic carries**: the whole
+    identifier that starts with an underscore (maximal run of identifier characters), the illegal character, the non-hex
+    character of an encoded string literal, the number of characters between the quotes (`Lex.ArgOK` spells each case out) -/
+theorem C20_lex_quotes_input (input : List Char) (d : Lex.LDiag) (h : d ∈ Lex.lexDiags input) :
+    Lex.Offends input d :=
+  Lex.lexDiags_offends input d h
+
+/-- and it fits the format of its code (regenerated table), so by `C20_quotes_offender` the message printed is that format
+    with the offending input text, for every `Ambient` -/
+theorem C20_lex_quotes_offender (amb : Ambient) (file input : List Char) (base : Nat) (d : Lex.LDiag)
+    (h : d ∈ Lex.lexDiags input) :
+    body LibErrors.withLineForwardsVaList amb (Lex.toDiag file input d base)
+      = subst (parseFmt (formatOf d.code)) d.arg.toList :=
+  C20_quotes_offender amb (Lex.toDiag file input d base) (Lex.lexDiags_fits input d h)
+
+/-! ## every reporting site of the resolve model passes what its format expects; file of origin in multi-file runs -/
+
+/-- every parse-time and resolve-time diagnostic of the declaration-level model (all five passes, every schema of a
+    multi-schema / multi-file run) passes arguments that fit the format of its code in the regenerated table -/
+theorem C20_resolve_sites_fit (f : Resolve.File) (d : Diag)
+    (h : d ∈ Resolve.parseDiags f ∨ d ∈ (Resolve.resolveDiags f).diags) :
+    fits (parseFmt (formatOf d.code)) d.args = true := by
+  rcases h with h | h
+  · exact (Resolve.parseDiags_ok f d h).2.2
+  · obtain ⟨p, hp⟩ := Resolve.resolveDiags_ok f d h; exact hp.2.2
+
+/-- hence the text printed for it is its format with the model's arguments — the names, counts and lines the fault classes
+    are about — whatever the registers hold -/
+theorem C20_semantic_quotes_offender (amb : Ambient) (f : Resolve.File) (d : Diag)
+    (h : d ∈ Resolve.parseDiags f ∨ d ∈ (Resolve.resolveDiags f).diags) :
+    body LibErrors.withLineForwardsVaList amb d = subst (parseFmt (formatOf d.code)) d.args :=
+  C20_quotes_offender amb d (C20_resolve_sites_fit f d h)
 
 /-- in a run over several files (the file on the command line plus schema files found through the current directory /
-    EXPRESS_PATH) every diagnostic of passes 1–3 for schema `s` carries the file `s` was read from, and is printed under
-    it: undefined schema, non-existent or doubly imported item, undefined super/subtype, undefined / circular / entity type -/
+    EXPRESS_PATH) every diagnostic of ANY of the five passes for schema `s` carries the file `s` was read from, and is
+    printed under it -/
 theorem C20_file_of_origin (f : Resolve.File) (s : Resolve.Schema) (fb fwd : Bool) (amb : Ambient) (d : Diag)
     (h : d ∈ Resolve.pass1 f s ∨ d ∈ Resolve.pass2 f fb s ∨
-         d ∈ Resolve.pass3 (Resolve.fileOf f s) (Resolve.envOf f fb s) s) :
+         d ∈ Resolve.pass3 (Resolve.fileOf f s) (Resolve.envOf f fb s) s ∨
+         d ∈ Resolve.pass4 (Resolve.fileOf f s) (Resolve.envOf f fb s) s ∨
+         d ∈ (Resolve.pass5 (Resolve.fileOf f s) s).diags) :
     d.file = (Resolve.fileOf f s).toList ∧
     ∃ rest, message fwd amb d = (Resolve.fileOf f s).toList ++ ':' :: rest := by
-  have hb : d.file = (Resolve.fileOf f s).toList ∧ d.via = .symbol := by
-    rcases h with h | h | h
-    · exact Resolve.pass1_file f s d h
-    · exact Resolve.pass2_file f fb s d h
-    · exact Resolve.pass3_file _ _ s d h
+  have hb : Resolve.OKd (Resolve.fileOf f s) d := by
+    rcases h with h | h | h | h | h
+    · exact Resolve.pass1_ok f s d h
+    · exact Resolve.pass2_ok f fb s d h
+    · exact Resolve.pass3_ok _ _ s d h
+    · exact Resolve.pass4_ok _ _ s d h
+    · exact Resolve.pass5_ok _ s d h
   have hf := hb.1
-  have hv : d.via ≠ .plain := by rw [hb.2]; decide
+  have hv : d.via ≠ .plain := by rw [hb.2.1]; decide
   obtain ⟨rest, hr⟩ := C20_file_attributed fwd amb d hv
   exact ⟨hf, rest, by rw [hr, hf]⟩
+
+/-- parse-time diagnostics of the checked file carry its name -/
+theorem C20_parse_file (f : Resolve.File) (d : Diag) (h : d ∈ Resolve.parseDiags f) : d.file = f.path.toList :=
+  (Resolve.parseDiags_ok f d h).1
 
 /-- SUBTYPE_RESOLVE ("Subtype %s resolves to non-entity %s on line %d."): with the name of the non-entity passed, the
     arguments fit the format, so `C20_quotes_offender` applies; with only (subtype name, line) — the call as it stood — they do
